@@ -1794,7 +1794,9 @@ def _stateprep_workflow(
                 layer_generator=layer_gen,
                 instantiate_options=inst_ops,
             )
-        synthesis = PermutationAwareSynthesisPass(inner_synthesis=in_synthesis)
+        # Permutation-aware synthesis permutes a unitary target; a state
+        # target is synthesized directly.
+        synthesis = in_synthesis
 
     scan = ScanningGateRemovalPass(
         success_threshold=synthesis_epsilon,
@@ -1900,7 +1902,9 @@ def _statemap_workflow(
                 layer_generator=layer_gen,
                 instantiate_options=inst_ops,
             )
-        synthesis = PermutationAwareSynthesisPass(inner_synthesis=in_synthesis)
+        # Permutation-aware synthesis permutes a unitary target; a state
+        # target is synthesized directly.
+        synthesis = in_synthesis
 
     scan = ScanningGateRemovalPass(
         success_threshold=synthesis_epsilon,
